@@ -267,7 +267,10 @@ int lha_input_stream_skip(LHAInputStream *stream, size_t bytes)
 
 			result = do_read(stream, data, len);
 
-			if (result < 0) {
+			// Error, or end of input reached before all of the
+			// data was skipped.
+
+			if (result <= 0) {
 				return 0;
 			}
 
